@@ -186,7 +186,16 @@ def cargo_build():
 
 
 def run_vh(mode, text, args=(), timeout=600):
+    """Runs the harness on a batch of cases.  A harness process that dies is re-run once (a crash that does not
+    repeat is an accident of the machine — thread or descriptor exhaustion under load —, not a fact about the
+    tree); the panic message is the head of stderr, so that is what is kept."""
     rc, out, err = run([VH, mode] + list(args), inp=text, timeout=timeout)
+    if rc not in (0, 124):
+        rc2, out2, err2 = run([VH, mode] + list(args), inp=text, timeout=timeout)
+        if rc2 == 0:
+            return rc2, out2, err2
+        head = "\n".join(err2.splitlines()[:12])
+        return rc2, out2, head + "\n…\n" + err2[-300:]
     return rc, out, err
 
 
